@@ -40,6 +40,7 @@ func vfTerminates(f func()) bool
 func vfStop()
 func vfAssertTerminates(f func(), clause string)
 func vfDeepEqual(a, b any) bool
+func vfRandConcrete(on bool)
 func vfAnd(a, b bool) bool
 func vfOr(a, b bool) bool
 func vfNot(a bool) bool
@@ -234,7 +235,7 @@ func (p *path) randInput(n int64) *Term {
 	if n <= 0 {
 		p.runtimePanic("invalid argument to rand.Intn", "math/rand")
 	}
-	if n <= 16 {
+	if n <= 16 && !p.randConcrete {
 		return vfInt(p, nil, []value{p.mkStr(name), p.tc.BV(64, 0), p.tc.BV(64, uint64(n-1))}).(*Term)
 	}
 	p.note("math/rand: ranges above 16 follow one concrete stream (stated bound)")
